@@ -38,7 +38,8 @@ DDs      == IF Wide THEN {<<>>, <<"--">>} ELSE {<<>>}
 ArgvSet == { o \o p \o d \o f \o t : o \in OptSeqs(MaxOpts), p \in PatForms, d \in DDs, f \in FileSeqs, t \in TailOpts }
 
 \* match / no match / missing or corrupt (no output) / corrupt after output / grep error / SIGPIPE / killed
-MCFileStates == { [gr |-> 0, xs |-> "ok"], [gr |-> 1, xs |-> "ok"], [gr |-> 1, xs |-> "fail"], [gr |-> 0, xs |-> "fail"],
+MCFileStates == IF Strict # "none" THEN { [gr |-> 0, xs |-> "ok"] } ELSE
+                { [gr |-> 0, xs |-> "ok"], [gr |-> 1, xs |-> "ok"], [gr |-> 1, xs |-> "fail"], [gr |-> 0, xs |-> "fail"],
                   [gr |-> 2, xs |-> "ok"], [gr |-> 0, xs |-> "pipe"], [gr |-> 1, xs |-> "kill"] }
 
 MCInit == \E p \in {"xzgrep"}, lab \in BOOLEAN, av \in ArgvSet : InitWith(p, lab, av) /\ ref = RefOf(av)
